@@ -71,6 +71,8 @@ def run_job(job):
             else:
                 opts.setdefault("time_budget", float(os.environ.get("VERIF_JOB_BUDGET", "0")) or
                                 (300.0 if os.environ.get("VERIF_TIER_ACTIVE", "quick") == "quick" else 2400.0))
+                if os.environ.get("VERIF_TIER_ACTIVE") == "thorough":
+                    opts.setdefault("crosscheck", 2)      # two queries per job are decided a second time by cvc5
                 res = sx.explore(_isolated(fn), job.params, **opts)
         finally:
             sys.setprofile(None)
@@ -85,7 +87,7 @@ def run_job(job):
             "cex": res.counterexamples, "inconclusive": res.inconclusive[:20],
             "n_inconclusive": len(res.inconclusive),
             "samples": res.samples[:6], "functions": sorted(_TRACE_FUNCS), "traced": bool(trace),
-            "extra": getattr(res, "extra", None),
+            "extra": getattr(res, "extra", None), "crosscheck": getattr(st, "crosscheck", None),
         })
     except BaseException as ex:  # noqa
         out["error"] = "%s: %s\n%s" % (type(ex).__name__, ex, traceback.format_exc()[-3000:])
@@ -228,6 +230,10 @@ def finish(pid, tier, seed, mod, results, t0, extra_cov=None, assumptions=None):
         jobrows.append({"job": r["name"], "paths": r["paths"], "queries": r["queries"],
                         "verdicts": r["verdicts"], "wall_s": round(r["wall"], 2)})
     n_inconclusive = sum(r.get("n_inconclusive", 0) for r in results if "error" not in r)
+    xc = {"agree": 0, "cvc5_unknown": 0, "disagree": 0, "error": 0}
+    for r in results:
+        for k, v in (r.get("crosscheck") or {}).items():
+            xc[k] = xc.get(k, 0) + v
 
     # ---- replay
     os.makedirs(os.path.join(VERIF, "replays"), exist_ok=True)
@@ -311,6 +317,7 @@ def finish(pid, tier, seed, mod, results, t0, extra_cov=None, assumptions=None):
         "known_findings_hit": sorted(known_hits),
         "jobs": _toprows(jobrows),
         "job_errors": [r["error"][-600:] for r in errors][:5],
+        "cvc5_crosscheck": xc if tier == "thorough" else "thorough tier only",
         "seeded_fault_selftests": {"run": len(selftest_rows), "caught": len(selftest_rows) - len(selftest_missed),
                                    "missed": selftest_missed},
         "trusted_base": ["CPython executing the real code on symx proxies", "z3 %s" % _z3v(),
@@ -350,6 +357,9 @@ def finish(pid, tier, seed, mod, results, t0, extra_cov=None, assumptions=None):
     if nonrepro:
         for n in nonrepro[:3]:
             print("HARNESS-ERROR non-reproducing model: %s" % json.dumps(n, default=str)[:1500], file=sys.stderr)
+        rc = EXIT_HARNESS
+    if xc.get("disagree"):
+        print("HARNESS-ERROR z3 and cvc5 disagree on %d queries" % xc["disagree"], file=sys.stderr)
         rc = EXIT_HARNESS
     if selftest_missed:
         print("HARNESS-ERROR seeded-fault self-test not caught: %s" % selftest_missed, file=sys.stderr)
